@@ -70,6 +70,8 @@ type Seq struct {
 	History        map[int]map[string]bool // every accepted value of every object (async crash oracle)
 	everAsync      bool
 	small          *smallModel
+	Prop           string            // property being checked (first-divergence attribution), "" in sub-checks
+	Foreign        *Violation        // first divergence of a soft oracle the property does not own
 	smallAsync     bool              // async setting of the second collection (it has its own schema)
 	smallDirty     bool              // the second collection may have pending async writes
 	smallTimeoutMs int64             // and the timeout of its flusher
@@ -102,6 +104,33 @@ func (s *Seq) fail(tag, sig, format string, args ...interface{}) {
 		s.V = &Violation{Tag: tag, Sig: tag + ":" + sig, Msg: fmt.Sprintf(format, args...), Step: s.step, Op: opk}
 	}
 	panic(stopRun{})
+}
+
+// softOracle runs a purely observational oracle (one that looks at the disk and
+// never changes model or handle). When the property being checked does not own
+// the oracle, its divergence is remembered as the run's foreign divergence and
+// the history goes on, so that an oracle the property does own can still fire
+// on what follows (a Repair that drops the constraints is seen by the layout
+// oracle first, and by the uniqueness oracle at the next duplicate).
+func (s *Seq) softOracle(tag string, f func()) {
+	if s.Prop == "" || s.V != nil || OwnsTag(s.Prop, tag) {
+		f()
+		return
+	}
+	defer func() {
+		if r := recover(); r != nil {
+			if _, ok := r.(stopRun); ok && s.V != nil && s.V.Tag == tag {
+				if s.Foreign == nil {
+					s.Foreign = s.V
+				}
+				s.V = nil
+				s.stat("foreign-divergence-continued:" + tag)
+				return
+			}
+			panic(r)
+		}
+	}()
+	f()
 }
 
 // guard runs f, converting a panic of the code under test into a violation.
